@@ -311,7 +311,12 @@ pub fn run_scenario(r: &mut Report, app: &mut dyn RunningApp, sc: &Scenario, sid
 /// The descriptor limit is per process, so this runs alone (after the sharded part of the workload), with the soft limit
 /// lowered to the current number of descriptors plus an ODD headroom: every accepted connection needs a client-side
 /// descriptor first, so at exhaustion there is at least one connection the server was woken for and could not accept.
-pub fn fd_exhaustion_scenario(r: &mut Report, app: &mut dyn RunningApp, replay: &[String]) {
+///
+/// `rounds` shortages follow one another (the server must serve again after each); with `signal_in_shortage` the signal is
+/// sent 200 ms into the last one, while `accept` is still failing: `run` returns promptly all the same - what earlier
+/// shortages did to the accept loop must not delay it (seeded C20-K). "Promptly" is 3 s here (the unchanged tree needs
+/// milliseconds); a machine that schedules threads late at that moment makes the round inconclusive, not violated.
+pub fn fd_exhaustion_scenario(r: &mut Report, app: &mut dyn RunningApp, rounds: usize, signal_in_shortage: bool, replay: &[String]) {
     #[repr(C)]
     struct Rlimit {
         cur: u64,
@@ -339,7 +344,7 @@ pub fn fd_exhaustion_scenario(r: &mut Report, app: &mut dyn RunningApp, replay: 
     };
     r.eval();
     r.count("fd_exhaustion_scenarios", 1);
-    r.nontrivial(0x20fd_0000 + fnv(rt.as_bytes()));
+    r.nontrivial(0x20fd_0000 + fnv(rt.as_bytes()) + rounds as u64 * 2 + signal_in_shortage as u64);
     if !ask(addr) {
         r.inconclusive(format!("[{}] fd-exhaustion scenario: the lab app did not serve before the burst", rt));
         return;
@@ -349,67 +354,107 @@ pub fn fd_exhaustion_scenario(r: &mut Report, app: &mut dyn RunningApp, replay: 
         r.inconclusive("getrlimit failed");
         return;
     }
-    let before = open_fds();
-    let headroom = 41u64;
-    let low = Rlimit { cur: (before + headroom).min(old.max), max: old.max };
-    if unsafe { setrlimit(RLIMIT_NOFILE, &low) } != 0 {
-        r.inconclusive("setrlimit failed");
-        return;
-    }
-    let mut held: Vec<TcpStream> = Vec::new();
-    let mut client_refused = 0;
-    for _ in 0..400 {
-        match TcpStream::connect(addr) {
-            Ok(s) => held.push(s),
-            Err(_) => {
-                client_refused += 1;
-                if client_refused >= 3 {
-                    break;
+    let mut last = (0u64, 0u64, 0u64, 0u64);
+    for round in 0..rounds {
+        let in_shortage_signal = signal_in_shortage && round + 1 == rounds;
+        let before = open_fds();
+        let headroom = 41u64;
+        let low = Rlimit { cur: (before + headroom).min(old.max), max: old.max };
+        if unsafe { setrlimit(RLIMIT_NOFILE, &low) } != 0 {
+            r.inconclusive("setrlimit failed");
+            return;
+        }
+        let mut held: Vec<TcpStream> = Vec::new();
+        let mut client_refused = 0;
+        for _ in 0..400 {
+            match TcpStream::connect(addr) {
+                Ok(s) => held.push(s),
+                Err(_) => {
+                    client_refused += 1;
+                    if client_refused >= 3 {
+                        break;
+                    }
+                    std::thread::sleep(Duration::from_millis(20));
                 }
-                std::thread::sleep(Duration::from_millis(20));
             }
         }
-    }
-    std::thread::sleep(Duration::from_millis(300));
-    let during = open_fds();
-    let c = held.len() as u64;
-    let accepted = during.saturating_sub(before + 1).saturating_sub(c); // (+1: the /proc/self/fd handle itself is not counted twice; tolerate one either way)
-    let starved = c.saturating_sub(accepted);
-    drop(held);
-    let restored = unsafe { setrlimit(RLIMIT_NOFILE, &old) } == 0;
-    if !restored {
-        r.harness_error("could not restore RLIMIT_NOFILE".to_string());
-        return;
-    }
-    r.max("fd_exhaustion_client_connections", c);
-    r.max("fd_exhaustion_connections_the_server_could_not_accept", starved);
-    if client_refused < 3 || starved == 0 {
-        r.count("fd_exhaustion_not_reached", 1);
-        return;
-    }
-    std::thread::sleep(Duration::from_millis(300));
-    let ex = J::obj(vec![("descriptors_before", J::u(before)), ("soft_limit_during_burst", J::u(low.cur)), ("client_connections", J::u(c)), ("connections_left_unaccepted_at_exhaustion", J::u(starved)), ("runtime", J::s(rt))]);
-    if app.wait_returned(Duration::from_millis(200)).is_some() {
-        r.violation(&format!("C20/run-returned-without-signal:{}", rt), format!("[{}] run() returned although no shutdown signal was sent: {} connections exhausted the descriptor limit for a moment (accept failed for {} of them)", rt, c, starved), ex, replay.to_vec());
-        return;
-    }
-    let mut served = false;
-    for _ in 0..20 {
-        if ask(addr) {
-            served = true;
-            break;
+        std::thread::sleep(Duration::from_millis(if in_shortage_signal { 200 } else { 300 }));
+        let during = open_fds();
+        let c = held.len() as u64;
+        let accepted = during.saturating_sub(before + 1).saturating_sub(c); // (+1: the /proc/self/fd handle itself is not counted twice; tolerate one either way)
+        let starved = c.saturating_sub(accepted);
+        last = (before, low.cur, c, starved);
+        let ex = J::obj(vec![("descriptors_before", J::u(before)), ("soft_limit_during_burst", J::u(low.cur)), ("client_connections", J::u(c)), ("connections_left_unaccepted_at_exhaustion", J::u(starved)), ("shortage_round", J::u(round as u64 + 1)), ("of_rounds", J::u(rounds as u64)), ("runtime", J::s(rt))]);
+        if in_shortage_signal && client_refused >= 3 && starved > 0 {
+            // the signal arrives while accept is still failing
+            let signal = app.take_signaller();
+            let t = Instant::now();
+            signal();
+            let back = app.wait_returned(Duration::from_secs(10)).map(|at| at.saturating_duration_since(t));
+            let waited = t.elapsed();
+            drop(held);
+            if unsafe { setrlimit(RLIMIT_NOFILE, &old) } != 0 {
+                r.harness_error("could not restore RLIMIT_NOFILE".to_string());
+                return;
+            }
+            match back {
+                None => r.violation(&format!("C20/run-did-not-return:{}", rt), format!("[{}] run() had not returned {:?} after a signal sent while the process was out of descriptors (shortage {} of {})", rt, waited, round + 1, rounds), ex, replay.to_vec()),
+                Some(d) if d > Duration::from_secs(3) => {
+                    // three 20 ms sleeps: is the machine scheduling threads promptly right now?
+                    let over = (0..3).map(|_| { let t = Instant::now(); std::thread::sleep(Duration::from_millis(20)); t.elapsed().as_millis().saturating_sub(20) as u64 }).max().unwrap_or(0);
+                    if over > 200 {
+                        r.count("fd_exhaustion_signal_in_shortage_discarded_machine_stalled", 1);
+                    } else {
+                        r.violation(&format!("C20/run-returned-late-after-descriptor-shortages:{}", rt), format!("[{}] the signal was sent 200 ms into descriptor shortage {} of {} (accept failing with EMFILE); run() returned {} ms later - the unchanged accept loop needs milliseconds, the delay comes from what the earlier shortages left behind", rt, round + 1, rounds, d.as_millis()), ex, replay.to_vec());
+                    }
+                }
+                Some(d) => {
+                    r.count("fd_exhaustion_signal_in_shortage_returns", 1);
+                    r.max("max_ms_to_return_after_a_signal_sent_in_a_descriptor_shortage", d.as_millis() as u64);
+                }
+            }
+            return;
         }
-        std::thread::sleep(Duration::from_millis(100));
+        drop(held);
+        let restored = unsafe { setrlimit(RLIMIT_NOFILE, &old) } == 0;
+        if !restored {
+            r.harness_error("could not restore RLIMIT_NOFILE".to_string());
+            return;
+        }
+        r.max("fd_exhaustion_client_connections", c);
+        r.max("fd_exhaustion_connections_the_server_could_not_accept", starved);
+        if client_refused < 3 || starved == 0 {
+            r.count("fd_exhaustion_not_reached", 1);
+            return;
+        }
+        r.count("fd_shortages_driven", 1);
+        std::thread::sleep(Duration::from_millis(300));
+        if app.wait_returned(Duration::from_millis(200)).is_some() {
+            r.violation(&format!("C20/run-returned-without-signal:{}", rt), format!("[{}] run() returned although no shutdown signal was sent: {} connections exhausted the descriptor limit for a moment (accept failed for {} of them)", rt, c, starved), ex, replay.to_vec());
+            return;
+        }
+        let mut served = false;
+        let t_serve = Instant::now();
+        for _ in 0..100 {
+            if ask(addr) {
+                served = true;
+                break;
+            }
+            std::thread::sleep(Duration::from_millis(100));
+        }
+        if !served {
+            r.violation(&format!("C20/stopped-serving-without-signal:{}", rt), format!("[{}] after a burst of {} connections exhausted the descriptor limit for a moment (shortage {} of {}) the server no longer answers, although no shutdown signal was sent", rt, c, round + 1, rounds), ex, replay.to_vec());
+            return;
+        }
+        r.max("max_ms_until_served_again_after_a_descriptor_shortage", t_serve.elapsed().as_millis() as u64);
+        r.count("fd_exhaustion_survived_and_serving", 1);
     }
-    if !served {
-        r.violation(&format!("C20/stopped-serving-without-signal:{}", rt), format!("[{}] after a burst of {} connections exhausted the descriptor limit for a moment the server no longer answers, although no shutdown signal was sent", rt, c), ex, replay.to_vec());
-        return;
-    }
-    r.count("fd_exhaustion_survived_and_serving", 1);
+    let (before, low_cur, c, starved) = last;
+    let ex = J::obj(vec![("descriptors_before", J::u(before)), ("soft_limit_during_burst", J::u(low_cur)), ("client_connections", J::u(c)), ("connections_left_unaccepted_at_exhaustion", J::u(starved)), ("shortages", J::u(rounds as u64)), ("runtime", J::s(rt))]);
     let signal = app.take_signaller();
     signal();
     match app.wait_returned(Duration::from_secs(10)) {
         Some(_) => r.count("fd_exhaustion_then_shutdown_returns", 1),
-        None => r.violation(&format!("C20/run-did-not-return:{}", rt), format!("[{}] run() had not returned 10 s after the signal (after an earlier descriptor exhaustion)", rt), ex, replay.to_vec()),
+        None => r.violation(&format!("C20/run-did-not-return:{}", rt), format!("[{}] run() had not returned 10 s after the signal (after {} earlier descriptor shortage(s))", rt, rounds), ex, replay.to_vec()),
     }
 }
